@@ -131,6 +131,9 @@ type Interp struct {
 	fsRemoved []string
 	errNotExist Value
 	shardHandles map[*Loc]*shardHandle
+	files        map[string]*fileObj
+	fileHandles  map[*Loc]*fileHandle
+	hashedContents []hashedContent
 	envThreads int
 	ghost    map[string]Value
 	conc     *concState
@@ -489,6 +492,9 @@ func (in *Interp) runOnce(fn *ssa.Function) {
 	in.timers = map[*Loc]*timerObj{}
 	in.fs, in.fsRemoved, in.errNotExist = nil, nil, nil
 	in.shardHandles = map[*Loc]*shardHandle{}
+	in.files = map[string]*fileObj{}
+	in.fileHandles = map[*Loc]*fileHandle{}
+	in.hashedContents = nil
 	in.envThreads = 0
 	in.mapOrderOverride = -1
 	in.steps = 0
